@@ -344,6 +344,8 @@ def bypass_feedback(rng, count):
                 py4hw.Add(blk, 'add', q, cur, d)
             (mk_x(), mk_add()) if order else (mk_add(), mk_x())
             py4hw.Reg(blk, 'reg', d, q)
+            if rng.random() < 0.4:
+                blk.addOut('reg', d)               # an output port called like the instance that reads the same wire
             t = d
             for i in range(s_):
                 nxt = blk.wire('s%d' % i, w)
@@ -439,6 +441,8 @@ def inputless(rng, count):
                 py4hw.Add(blk, 'add%d' % j, src, one, d)
                 py4hw.Reg(blk, 'reg%d' % j, d, q)
                 blk.addOut('q%d' % j, q)
+                if rng.random() < 0.5:
+                    blk.addOut('reg%d' % j, d)         # an output port called like the instance that reads the same wire
                 last = q
             out.append(({'name': 'no input ports: %d counter loop(s) #%d' % (loops, k), 'class': 'inputless'}, blk))
     return out
